@@ -409,7 +409,11 @@ def c07_scenario(ctx, checks, kind, sample, data):
         c0 = KM.canon_mem(kind, o)
         unk0 = raw_unknown(kind, o)
         b = io.BytesIO(data); o.save(b); d1 = b.getvalue()
-        o1 = kind.open(io.BytesIO(d1))
+        try:
+            o1 = kind.open(io.BytesIO(d1))
+        except mutagen.MutagenError as e:
+            v("the file an unmodified load+save leaves no longer loads (%s)" % type(e).__name__, {"error": str(e)[:120]})
+            return
         c1 = KM.canon_mem(kind, o1)
         unk1 = raw_unknown(kind, o1)
         b = io.BytesIO(d1); o.save(b); d2_same = b.getvalue()      # the SAME object saves again
@@ -423,6 +427,12 @@ def c07_scenario(ctx, checks, kind, sample, data):
         return
     ctx.count("c07:scenario")
     w1, err = safe_walk(kind, d1)
+    if w1 is None:
+        # the file was well-formed for the independent walker before: whatever makes it undecodable now was lost or mangled
+        v("the file an unmodified load+save leaves can no longer be decoded independently", {"error": str(err)[:160]})
+    pics = lambda x: [(p.type, p.mime, p.desc, p.width, p.height, p.depth, p.colors, bytes(p.data)) for p in getattr(x, "pictures", None) or []]
+    if kind.name in ("FLAC", "OggFLAC") and pics(o1) != pics(o):
+        v("pictures changed by load+save without modification", {"before": repr(pics(o))[:200], "after": repr(pics(o1))[:200]})
     if c1 != c0:
         v("tags changed by load+save without modification", {"before": repr(c0)[:200], "after": repr(c1)[:200]})
     if unk1 != unk0:
